@@ -35,7 +35,7 @@ def run(ctx):
     ctx.sample({"from": "MC_Script_sim", "behaviour": beh[0]})
     ctx.sample({"from": "MC_Script_more", "behaviour": el.need(more, "more runs")[-1]})
     el.script_replay(ctx, "C07", beh, "all", mutate=8 if thorough else 3)
-    el.script_replay(ctx, "C07", more.replays, "more", expand=85)
+    el.script_replay(ctx, "C07", more.replays, "more", expand=84)
     # MAXMSGSIZE verdicts through every decoder entry point (C03's replay, limit kinds only)
     path = os.path.join(ctx.work, "wire_limit.jsonl")
     out = os.path.join(ctx.work, "wire_limit.out")
